@@ -18,7 +18,7 @@ package fundraising
 //@ ensures [C15] every-instalment-exported-once: result1 == nil ==> forall(a, uint64, forall(t, Time, VestingQueue[a][t].present ==> 0 <= walkPos1(a, t) && walkPos1(a, t) < len(result0.VestingQueueList) && result0.VestingQueueList[walkPos1(a, t)] == VestingQueue[a][t]))
 //@ ensures [C15] bids-are-stored-bids: result1 == nil ==> len(result0.BidList) == walkN2 && forall(j, int, 0 <= j && j < walkN2 ==> let(e, result0.BidList[j], Bid[e.AuctionId][e.Id].present && Bid[e.AuctionId][e.Id] == e))
 //@ ensures [C15] every-bid-exported-once: result1 == nil ==> forall(a, uint64, forall(i, uint64, Bid[a][i].present ==> 0 <= walkPos2(a, i) && walkPos2(a, i) < len(result0.BidList) && result0.BidList[walkPos2(a, i)] == Bid[a][i]))
-//@ ensures [C15] bids-of-an-auction-in-id-order: result1 == nil ==> forall(i, int, forall(j, int, 0 <= i && i < j && j < len(result0.BidList) ==> result0.BidList[i].AuctionId <= result0.BidList[j].AuctionId))
+//@ ensures [C15] bids-in-auction-then-bid-id-order: result1 == nil ==> forall(i, int, forall(j, int, 0 <= i && i < j && j < len(result0.BidList) ==> result0.BidList[i].AuctionId < result0.BidList[j].AuctionId || (result0.BidList[i].AuctionId == result0.BidList[j].AuctionId && result0.BidList[i].Id < result0.BidList[j].Id)))
 //@ ensures [C15] auctions-exported-in-id-order: result1 == nil ==> len(result0.AuctionList) == AuctionSeq && forall(j, int, 0 <= j && j < len(result0.AuctionList) ==> result0.AuctionList[j] == Auction[j])
 //@ ensures [C15] exported-allow-list-passes-validation: result1 == nil ==> genesisValidAB(result0)
 //@ ensures [C15] exported-instalments-pass-validation: result1 == nil ==> genesisValidVQ(result0)
@@ -30,3 +30,34 @@ package fundraising
 //@ walk 1 invariant len(genesis.VestingQueueList) == idx && forall(j, int, 0 <= j && j < idx ==> genesis.VestingQueueList[j] == walkVal(j))
 //@ walk 2 invariant len(genesis.BidList) == idx && forall(j, int, 0 <= j && j < idx ==> genesis.BidList[j] == walkVal(j))
 //@ walk 3 invariant len(genesis.AuctionList) == idx && forall(j, int, 0 <= j && j < idx ==> genesis.AuctionList[j] == walkVal(j))
+
+// InitGenesis (C15): every element of a validated genesis is filed under the key derived from its own fields; auction
+// ids are re-drawn from the auction sequence in list order and bid ids from the per-auction bid sequence in list order,
+// so a genesis exported in key order from a state with dense ids re-imports under the same ids into an empty store, and
+// the two sequences end at the number of imported auctions / bids per auction.
+//@ func InitGenesis
+//@ requires genesisValidAB(genState) && genesisValidVQ(genState) && genesisValidBids(genState)
+//@ requires 0 <= AuctionSeq && AuctionSeq + len(genState.AuctionList) < 9223372036854775808
+//@ requires forall(a, uint64, 0 <= BidSeq[a] && BidSeq[a] + len(genState.BidList) < 9223372036854775808)
+//@ modifies Auction, AuctionSeq, AllowedBidder, Bid, BidSeq, VestingQueue, Params, SetT
+//@ ensures [C15] auctions-stored-under-fresh-ids-in-list-order: result == nil ==> AuctionSeq == old(AuctionSeq) + len(genState.AuctionList) && forall(j, int, 0 <= j && j < len(genState.AuctionList) ==> Auction[old(AuctionSeq)+j].present && Auction[old(AuctionSeq)+j].Id == old(AuctionSeq)+j && sameExcept(Auction[old(AuctionSeq)+j], genState.AuctionList[j], Id))
+//@ ensures [C15] no-other-auction-touched: forall(x, uint64, x < old(AuctionSeq) || x >= old(AuctionSeq) + len(genState.AuctionList) ==> Auction[x] == old(Auction[x]))
+//@ ensures [C15] allow-list-entries-filed-under-their-own-fields: result == nil ==> forall(j, int, 0 <= j && j < len(genState.AllowedBidderList) ==> let(e, genState.AllowedBidderList[j], AllowedBidder[e.AuctionId][addrOf(e.Bidder)].present && AllowedBidder[e.AuctionId][addrOf(e.Bidder)] == e))
+//@ ensures [C15] no-other-allow-list-entry-touched: forall(a, uint64, forall(ad, Addr, !exists(j, int, 0 <= j && j < len(genState.AllowedBidderList) && genState.AllowedBidderList[j].AuctionId == a && addrOf(genState.AllowedBidderList[j].Bidder) == ad) ==> AllowedBidder[a][ad] == old(AllowedBidder[a][ad])))
+//@ ensures [C15] bid-counters-advance-by-the-bids-imported: result == nil ==> forall(a, uint64, BidSeq[a] == old(BidSeq[a]) + sum(i, 0, len(genState.BidList), ite(genState.BidList[i].AuctionId == a, 1, 0)))
+//@ ensures [C15] bids-stored-under-consecutive-ids-in-list-order: result == nil ==> forall(j, int, 0 <= j && j < len(genState.BidList) ==> let(e, genState.BidList[j], let(id, old(BidSeq[e.AuctionId]) + sum(i, 0, j, ite(genState.BidList[i].AuctionId == e.AuctionId, 1, 0)) + 1, Auction[e.AuctionId].present && Bid[e.AuctionId][id].present && Bid[e.AuctionId][id].Id == id && sameExcept(Bid[e.AuctionId][id], e, Id))))
+//@ ensures [C15] instalments-filed-under-their-own-fields: result == nil ==> forall(j, int, 0 <= j && j < len(genState.VestingQueueList) ==> let(e, genState.VestingQueueList[j], Auction[e.AuctionId].present && VestingQueue[e.AuctionId][e.ReleaseTime].present && VestingQueue[e.AuctionId][e.ReleaseTime] == e))
+//@ ensures [C15] parameters-stored: result == nil ==> Params.present && Params.AuctionCreationFee == genState.Params.AuctionCreationFee && Params.PlaceBidFee == genState.Params.PlaceBidFee && Params.ExtendedPeriod == genState.Params.ExtendedPeriod
+//@ loop 0 invariant 0 <= idx && idx <= len(genState.AuctionList) && AuctionSeq == old(AuctionSeq) + idx
+//@ loop 0 invariant forall(j, int, 0 <= j && j < idx ==> Auction[old(AuctionSeq)+j].present && Auction[old(AuctionSeq)+j].Id == old(AuctionSeq)+j && sameExcept(Auction[old(AuctionSeq)+j], genState.AuctionList[j], Id))
+//@ loop 0 invariant forall(x, uint64, x < old(AuctionSeq) || x >= old(AuctionSeq) + idx ==> Auction[x] == old(Auction[x]))
+//@ loop 1 invariant 0 <= idx && idx <= len(genState.AllowedBidderList)
+//@ loop 1 invariant forall(j, int, 0 <= j && j < idx ==> let(e, genState.AllowedBidderList[j], AllowedBidder[e.AuctionId][addrOf(e.Bidder)].present && AllowedBidder[e.AuctionId][addrOf(e.Bidder)] == e))
+//@ loop 1 invariant forall(a, uint64, forall(ad, Addr, !exists(j, int, 0 <= j && j < idx && genState.AllowedBidderList[j].AuctionId == a && addrOf(genState.AllowedBidderList[j].Bidder) == ad) ==> AllowedBidder[a][ad] == old(AllowedBidder[a][ad])))
+//@ loop 2 invariant 0 <= idx && idx <= len(genState.BidList)
+//@ loop 2 invariant forall(a, uint64, BidSeq[a] == old(BidSeq[a]) + sum(i, 0, idx, ite(genState.BidList[i].AuctionId == a, 1, 0)))
+//@ loop 2 invariant forall(a, uint64, old(BidSeq[a]) <= BidSeq[a] && BidSeq[a] <= old(BidSeq[a]) + idx)
+//@ loop 2 invariant forall(j, int, 0 <= j && j < idx ==> old(BidSeq[genState.BidList[j].AuctionId]) + sum(i, 0, j, ite(genState.BidList[i].AuctionId == genState.BidList[j].AuctionId, 1, 0)) + 1 <= BidSeq[genState.BidList[j].AuctionId])
+//@ loop 2 invariant forall(j, int, 0 <= j && j < idx ==> let(e, genState.BidList[j], let(id, old(BidSeq[e.AuctionId]) + sum(i, 0, j, ite(genState.BidList[i].AuctionId == e.AuctionId, 1, 0)) + 1, Auction[e.AuctionId].present && Bid[e.AuctionId][id].present && Bid[e.AuctionId][id].Id == id && sameExcept(Bid[e.AuctionId][id], e, Id))))
+//@ loop 3 invariant 0 <= idx && idx <= len(genState.VestingQueueList)
+//@ loop 3 invariant forall(j, int, 0 <= j && j < idx ==> let(e, genState.VestingQueueList[j], Auction[e.AuctionId].present && VestingQueue[e.AuctionId][e.ReleaseTime].present && VestingQueue[e.AuctionId][e.ReleaseTime] == e))
